@@ -32,6 +32,7 @@ def shrink(case):
     return B.shrink_case(case)
 
 
+@B.deep
 def check(case, M):
     tier = case.get("tier", "quick")
     r = B.run_case(case, M, tier)
